@@ -235,7 +235,7 @@ def handle : Handler := fun op inp impl =>
         else if !causal then "a callback received a response the client never wrote"
         else if !refused then "send after shutdown not refused: " ++ late
         else if running then "isRunning() still true after waitForResponses returned"
-        else if !cleanOK then "well-behaved client, yet some request was not answered with its own response"
+        else if !cleanOK then "well-behaved client, yet some request was not answered with its own response (or waitForResponses reported an error)"
         else ""
       (outs.contains key, why == "", why)
     let js := obsL.map judge
